@@ -383,7 +383,24 @@ fn handle_inner(line: &str) -> String {
     }
 }
 
+/// Every request is answered twice: quietly, and with a `tracing` subscriber installed that enables
+/// every level (the engine's `debug!` / `trace!` lines then evaluate and format their arguments).
+/// What the engine does must not depend on whether anybody listens; a difference is reported as
+/// the reply `LOGDIFF …`, which no model reply equals.
 pub fn handle(line: &str) -> String {
+    let quiet = handle_caught(line);
+    if std::env::var("TAUH_NO_LOGPASS").is_ok() {
+        return quiet;
+    }
+    let logged = tracing::subscriber::with_default(crate::suites2::AllOn, || handle_caught(line));
+    if logged != quiet {
+        let cut = |t: &str| -> String { t.chars().take(300).collect() };
+        return format!("LOGDIFF quiet=[{}] logging=[{}]", cut(&quiet), cut(&logged));
+    }
+    quiet
+}
+
+fn handle_caught(line: &str) -> String {
     match catch_unwind(AssertUnwindSafe(|| handle_inner(line))) {
         Ok(s) => s,
         Err(p) => {
